@@ -61,6 +61,7 @@ impl BreakpointRegistry {
 //@ extract: impl BreakpointRegistry / fn disable_all_breakpoints
 //@   fragment: `^for (_, brkpt) in breakpoints.drain() {` .. `^} Ok(errors)`
 //@   splice: F_one
+//@   rewrite W_cont: `continue;` => `return Ok(());`
 //@ end
 
 //@ begin_fn: src/debugger/breakpoint.rs :: disable_all_breakpoints [loop body for one breakpoint]
